@@ -82,6 +82,9 @@ type Wolf implements Pet { name: String barks: Boolean howls: Boolean }
 interface Pet { name: String }
 interface Named { name: String }
 enum Color { RED REB REC GREEN }
+directive @tag on FIELD
+directive @note on FIELD
+directive @mark on FIELD
 `
 
 var detDocs = []string{
@@ -97,6 +100,10 @@ var detDocs = []string{
 	// fragments that spread each other around an inline fragment and conflict (rules that look across spreads)
 	`query { ...F1 } fragment F1 on Query { ...F2 x: item(id: 1) { id } } fragment F2 on Query { ... on Query { x: dog { name } ...F1 } }`,
 	`{ ...F1 } fragment F1 on Query { ...F2 x: box(width: 1) } fragment F2 on Query { pets { name } ... on Query { x: box(width: 2) ...F3 } } fragment F3 on Query { ...F1 x: box }`,
+	// several different directives each repeated at one location, several unknown names of each kind: whatever
+	// groups errors in a map must still report them in a fixed order
+	`{ dog { name @tag @note @mark @tag @note @mark } }`, `{ dog { name @mark @tag @tag @note @mark @note } pets { name @note @tag @note @tag } }`,
+	`{ dog { namx namy namz } item(id: 1) { idx idy } box(widht: 1, heigth: 2, dept: 3) }`, `query($a: Itex, $b: Itey, $c: Doz) { dog { name } }`,
 	`{ dog { ...A ...B } } fragment A on Dog { ...B } fragment B on Dog { ...A }`, `{ a: dog { name } a: item(id: 1) { name } b: dog { n: name } b: dog { n: barks } }`,
 }
 
